@@ -47,7 +47,7 @@ PROP = dict(
               'psLockMutex/psUnlockMutex), interval-logged operations checked for linearizability per shared object (Wing-Gong search), deadlock watchdog',
     rule='case = program (N in {2,4,8} threads x 1..6 operations: full / session-id-resumed / RFC 5077 ticket-resumed / TLS 1.3 PSK-resumed handshakes over a shared '
          'server and client sslKeys_t with credentials passed between threads, data both ways, held connections, closes, corrupted-record invalidation, '
-         'ticket-key load/delete rotation; in 7 of 8 programs additionally 1..8 CRL-cache operations per thread: CRL load/replace of ca_rsa/ca_ec versions that do / do not revoke the leaf, '
+         'ticket-key load/delete rotation; in 7 of 8 programs additionally 1..6 CRL-cache operations per thread: CRL load/replace of ca_rsa/ca_ec versions that do / do not revoke the leaf, '
          'inserted unauthenticated or authenticated first, psCRL_DeleteAll / GetCRLForCert+Delete, validation of leaf+CA chains (revocable and never-revoked leaves, RSA and EC) with '
          'psX509AuthenticateCert or matrixValidateCerts over the shared trust anchors, handshakes against a server identity whose leaf the revoking versions list; the cache starts '
          'empty / with an unauthenticated / with an authenticated version) x 2..4 yield seeds; non-trivial = at least two threads overlapped in the interval log on operations '
